@@ -108,6 +108,8 @@ type Type struct {
 	// entity-key annotations on a plain key field or on key items (entity blocks
 	// carry theirs on the Field)
 	KeyPrimary bool   `json:"key_primary,omitempty"`
+	// KeyPrimaryFalse: entity.primaryKey = false written out (no key at all, said aloud)
+	KeyPrimaryFalse bool `json:"key_primary_false,omitempty"`
 	KeyForeign string `json:"key_foreign,omitempty"` // "pkg.Entity"
 	KeyTenant  string `json:"key_tenant,omitempty"`
 	// object/oneof/enum
